@@ -1,4 +1,4 @@
 Require Extraction.
 Require Import ExtrOcamlBasic.
 From GR Require Import Base.Bytes Model.RuleModel.
-Extraction "rule_model.ml" run_passes run_passes_adj origins positions mkslot.
+Extraction "rule_model.ml" run_passes run_passes_adj run_trace origins positions mkslot.
